@@ -17,7 +17,7 @@
 From PV Require Import Base.Prelude Wire.SeqSet Wire.SeqSetProofs
   RefModel.Flags RefModel.Model RefModel.Spec RefModel.BoxLemmas RefModel.AddrProofs
   RefModel.SimBase RefModel.SimStore RefModel.SimOther RefModel.SimNew RefModel.InitOk RefModel.Proofs
-  RefModel.Told RefModel.ToldProofs.
+  RefModel.Told RefModel.ToldProofs RefModel.KwTables RefModel.KwTablesProofs.
 
 (* C10: for EVERY program (any length) over SELECT/EXAMINE, APPEND and MULTIAPPEND
    (all-or-nothing when the backend fails on a message), STORE (FLAGS/+FLAGS/-FLAGS,
@@ -152,3 +152,25 @@ Theorem C10_keyword_same_table : forall t fl,
   maildir_carry t t fl = fl.
 Proof. exact keyword_same_table. Qed.
 Print Assumptions C10_keyword_same_table.
+
+(* round 5 — the translation itself, at the level of file-name letters (KwTables.v: model of
+   MaildirFlags.read / to_maildir / from_maildir for an arbitrary dovecot-keywords file and of
+   MailboxData._dest_flags).  For EVERY source table, every well-formed destination table
+   (one line per number) and every letter string, what arrives — read with the destination's
+   table — is exactly the flags the letters meant in the source folder, as far as the
+   destination can store them: the model's [storable Maildir (b_perm dest)]. *)
+Theorem C10_keyword_translation_exact : forall src dst codes f,
+  wf_table dst ->
+  mem f (from_maildir dst (translate src dst codes))
+  = mem f (storable Maildir (table_perm dst) (from_maildir src codes)).
+Proof. exact translate_exact. Qed.
+Print Assumptions C10_keyword_translation_exact.
+
+(* ... while leaving the letters as they are is wrong even between two folders that define the
+   same SET of keywords (each folder numbers them in its own order): seeded change C10-6 *)
+Theorem C10_refuted_raw_letters_same_keyword_set :
+  exists src dst codes, wf_table src /\ wf_table dst /\ same_keyword_set src dst /\
+    fset_eqb (from_maildir dst codes) (from_maildir src codes) = false /\
+    fset_eqb (from_maildir dst (translate src dst codes)) (from_maildir src codes) = true.
+Proof. exact raw_letters_same_set_refuted. Qed.
+Print Assumptions C10_refuted_raw_letters_same_keyword_set.
